@@ -29,7 +29,19 @@ fn length_case(rng: &mut Rng, idx: u64, rec: &mut Rec) {
         stream.extend_from_slice(NEXT);
     }
     let http10 = rng.chance(1, 4);
-    let head = format!("HTTP/1.{} 200 OK\r\nContent-Length: {}\r\n\r\n", if http10 { 0 } else { 1 }, n);
+    let status = *rng.pick(&[200u16, 200, 201, 404, 500, 301, 302, 307, 300, 399]);
+    let redirect = (300..400).contains(&status);
+    // a chunked coding on an HTTP/1.0 response is not defined and ignored: the length still rules
+    let te10 = http10 && rng.chance(1, 3);
+    rec.cov(&format!("length/status-{}{}", if redirect { "3xx" } else { "other" }, if te10 { "/http10-with-ignored-chunked" } else { "" }));
+    let head = format!(
+        "HTTP/1.{} {} X\r\n{}{}Content-Length: {}\r\n\r\n",
+        if http10 { 0 } else { 1 },
+        status,
+        if redirect { "Location: /next\r\n" } else { "" },
+        if te10 { "Transfer-Encoding: chunked\r\n" } else { "" },
+        n
+    );
     let mut f = super::c05::recv_flow(*rng.pick(&["GET", "POST", "DELETE"]));
     match f.try_response(head.as_bytes()) {
         Ok((k, Some(_))) if k == head.len() => {}
@@ -108,12 +120,17 @@ fn length_case(rng: &mut Rng, idx: u64, rec: &mut Rec) {
             other => return rec.fail("C08/over-read", format!("read after completion -> {:?}: bytes of the next response were taken", other)),
         }
         match b.proceed() {
-            Some(RecvBodyResult::Cleanup(c)) => {
+            Some(RecvBodyResult::Cleanup(c)) if !redirect => {
                 if c.must_close_connection() {
                     return rec.fail("C08/length-body-forces-close", format!("a length delimited exchange without any close condition demands closing: {:?}", c.close_reason()));
                 }
             }
-            _ => return rec.fail("C08/proceed", "complete body did not proceed to cleanup".into()),
+            Some(RecvBodyResult::Redirect(r)) if redirect => {
+                if r.must_close_connection() {
+                    return rec.fail("C08/length-body-forces-close", format!("a length delimited redirect without any close condition demands closing: {:?}", r.close_reason()));
+                }
+            }
+            _ => return rec.fail("C08/proceed", "complete body did not proceed to the state its status prescribes".into()),
         }
     }
 }
@@ -222,7 +239,7 @@ impl Property for P {
     fn floors(&self, _tier: Tier) -> Vec<(String, u64)> {
         [
             "length/window<left/*", "length/window=left/*", "length/window>left/out>=window", "length/window>left/out<window", "length/window>left/out=0", "length/read-after-complete", "close/out=0", "close/out<window", "close/out>=window",
-            "close/proceed-early", "close/proceed-at-end",
+            "close/proceed-early", "close/proceed-at-end", "length/status-3xx", "length/status-other/http10-with-ignored-chunked",
         ]
         .iter()
         .map(|k| (k.to_string(), 50))
